@@ -50,6 +50,10 @@ claim('C11',
       'One step from an arbitrary pre-state for each per-document reset: the real Parser (tag handles = empty / the class-level DEFAULT_TAGS object itself / foreign handles, stale version, up to 2 directive tokens of 5 kinds, explicit or implicit document), Composer, Constructor, Representer, Serializer and Emitter are run on one document and their state compared with what the document alone defines; a deep snapshot of every module- and class-level container of the yaml package is compared before and after each API call explored symbolically (every short input, error paths included) and over a corpus; every ordered pair of a 12-document corpus is loaded as a stream and compared with the documents loaded alone. The selectors are solver variables and every cell closes its path tree.',
       'Py leg only. Token/event sources of the one-step harnesses are stubs. The inductive argument covers call histories of any length only as far as the snapshot covers the global state (all dict/list/set attributes of yaml.* modules and classes).')
 
+claim('C07',
+      'The real Reader (and the scanner on top of it) is executed on every delivery form with the chunk schedule as solver variables: a text stream whose first reads return k1, k2 (k3) characters over every str of up to 2 (3) characters and over a 14-document corpus (CR LF pairs, NEL, BOM, multi-byte and astral characters, a non-printable character); byte streams of the corpus in UTF-8, UTF-8+BOM, UTF-16-LE/BE+BOM with symbolic read sizes (splits inside multi-byte sequences and surrogate pairs, between CR and LF, after the first byte); an invalid byte injected at a solver-chosen offset (same ReaderError position however the input is chunked); every byte string of up to 2 (3) bytes through a split stream; documents straddling the 4096 refill boundary. Tokens, values, marks and errors must equal those of the str / whole-bytes form.',
+      'Py leg only. Trusted: CrossHair/z3; M4 pure-Python codec models in place of the C codecs (differentially self-tested incl. error start/end/reason); messages compared through the M1 placeholder. How many tokens are handed out before a reader error is not compared (an in-memory str is checked up front, a stream block by block).')
+
 NA = {
  'C06': 'every comparison is between two artefacts of libyaml (a compiled system .so behind a Cython binding that cannot be rebuilt offline); symbolic values are realised at the extension boundary, so no solver variable survives into the code under comparison',
  'C20': 'asymptotic growth over input sizes: bounded symbolic execution cannot observe doubling and an unbounded cost argument is proof-assistant work; the anchored look-ahead mechanisms are decided as one-step invariants under C09/C18',
